@@ -140,6 +140,8 @@ SupportedKinds == {
     "augassign-name-import-prefix", "call-helper-import-prefix", "call-helper-print-prefix",
     "call-helper-named-help", "call-helper-named-input", "call-helper-named-exit", "call-helper-named-quit", "call-helper-named-breakpoint",
     "call-helper-named-vars", "call-helper-named-id", "call-helper-named-dir",
+    "call-helper-suffix-target", "call-helper-suffix-sleep", "call-helper-suffix-print", "call-helper-suffix-import",
+    "after-docstring-trailing-comment", "after-docstring-trailing-blanks", "after-sq-docstring-trailing-tab",
     \* string literals that contain `#` after escaped quotes (a comment stripper must respect the literal), and a loop
     \* sitting next to a first assignment in the same `if` (the promotion pass rewrites that branch)
     "serial-write-hash-dq", "serial-write-hash-sq", "if-hash-literal", "if-first-assign-and-for", "else-first-assign-and-while"}
